@@ -281,7 +281,8 @@ def setup_wrapper(E, with_cache_arg=True):
     E.builtins['__truth__'] = lambda E_, o: (E.fresh('cache_arg_nonempty', B) if o is ctx.cache_arg else None)
     prev = E.cur_func
     E.cur_func = OUTER
-    w = E.call(outer, [ctx.func], dict(cache=ctx.cache_arg))
+    # without a cache argument the parameter is OMITTED, so that the signature's own default is what gets used
+    w = E.call(outer, [ctx.func], dict(cache=ctx.cache_arg) if with_cache_arg else {})
     E.cur_func = prev
     if not isinstance(w, VFunc):
         raise Unsupported('threadsafe_async_cache(func) did not return a function defined in it')
@@ -1073,6 +1074,21 @@ def t_keys(E):
             else:
                 E.oblige(OUTER + '/ensures.default_store_is_a_fresh_dict',
                          z3.BoolVal(ctx.cache_obj is not None and len(ctx.tables) == 1), props={'C14'})
+                # ... fresh PER DECORATED FUNCTION: a second function decorated without a cache gets its own store (a
+                # mutable default in the signature would be one dict shared by all of them)
+                ctx2 = setup_wrapper(E, with_cache_arg=False)
+                roles(E, ctx2)
+                def dicts_of(c):
+                    out, fr_ = [], c.closure
+                    while fr_ is not None:
+                        out += [v for v in fr_.env.values() if isinstance(v, Obj) and v.cls == 'PyDict']
+                        fr_ = fr_.parent
+                    return out
+                shared = [d for d in dicts_of(ctx) if any(d is d2 for d2 in dicts_of(ctx2))]
+                E.oblige(OUTER + '/ensures.default_store_is_not_shared_between_decorated_functions',
+                         z3.BoolVal(not shared), props={'C14', 'C06'},
+                         detail='%d dict object(s) are visible from the closures of two separately decorated functions'
+                                % len(shared))
         if ctx.cache_obj is None:
             raise PathEnd()
         ns = E.builtins[('import', 'asyncio')]
